@@ -1,5 +1,6 @@
 """C15, first sentence: the six comparison operators and newer() agree with the lexicographic order on
-(design, implementation, bugfix).  A pure function: decided by exhaustive enumeration over {0,1,2,10}^3 pairs,
+(design, implementation, bugfix).  A pure function: decided by exhaustive enumeration over {0,1,2,10,99,100,101,70000}^3 pairs
+(counters around the powers of ten and past 16 bits: packed or string-wise comparisons break there),
 NOT by simulation (the evidence says so); it lives here only so that one command decides all of C15."""
 
 import itertools
@@ -21,7 +22,7 @@ def run(ch, cfg):
         def __init__(self, t):
             self._version_ = dawgie.VERSION(*t)
 
-    vals = list(itertools.product((0, 1, 2, 10), repeat=3))
+    vals = list(itertools.product((0, 1, 2, 10, 99, 100, 101, 70000), repeat=3))
     violations, n = [], 0
     for a in vals:
         for b in vals:
@@ -39,4 +40,4 @@ def run(ch, cfg):
             violations.append(dict(property='C15', rule='version_order', signature='asstring', message=f'{a} -> {V(a).asstring()}', step=0, t=0))
     sim.log('enum', f'{n}')
     return dict(violations=violations, probes={'version_pairs_enumerated': n}, faults={}, steps=n, vtime=0.0, digest=sim.digest() + str(ch.choose('dummy', 1 << 30)),
-                nontrivial=False, kinds={}, sample=[f'all {n} ordered pairs over {{0,1,2,10}}^3 x 7 operators'], ops=[f'{n} pairs'])
+                nontrivial=False, kinds={}, sample=[f'all {n} ordered pairs over {{0,1,2,10,99,100,101,70000}}^3 x 7 operators'], ops=[f'{n} pairs'])
